@@ -129,27 +129,34 @@ pub fn bytes_via_file(f: impl FnOnce(&Path) -> bool) -> Option<Vec<u8>> {
 // ------------------------------------------------------------------------------------------------
 // cost control for decompression bombs
 
-/// Address-space limit (MiB) for parsers that can be driven into producing output / looping in
-/// proportion to an unvalidated length field (LZ back-reference lengths, `original_size` headers).
-pub const BOMB_AS_LIMIT_MIB: u64 = 512;
+/// Head-room (MiB) above the process's current address-space size that parsers get which can be driven
+/// into producing output / looping in proportion to an unvalidated length field (LZ back-reference lengths,
+/// `original_size` headers).
+pub const BOMB_HEADROOM_MIB: u64 = 128;
 
-/// Lower this process's soft RLIMIT_AS to `BOMB_AS_LIMIT_MIB` (once).  The engine runs every case in a
-/// forked child under RLIMIT_AS 2 GiB; a mutant whose length field says "4 GiB" then pushes bytes for
-/// several seconds (or past the 10 s watchdog) before the allocator gives up.  With a 512 MiB limit the
-/// same run-away dies after ~0.3 s with the same verdict (`crash/signal_6`: allocation failure -> abort),
-/// which keeps the enumeration (and the replay of the recorded witnesses in every shard) affordable.
-/// It cannot hide anything: any single allocation above 64*(input+expected)+1 MiB (~1 MiB here) is a
-/// violation already, far below the limit.  Only called from `parse` functions, i.e. inside the child.
+/// Lower this process's soft RLIMIT_AS to (current VmSize + `BOMB_HEADROOM_MIB`), once.  The engine runs every
+/// case in a forked child under RLIMIT_AS 2 GiB; a mutant whose length field says "4 GiB" then pushes bytes
+/// for several seconds - past the 10 s watchdog when the 16 shards compete for memory - before the
+/// allocator gives up, and the verdict flips between `crash/signal_6` and `timeout/timeout_10s` with the
+/// load of the machine.  With 128 MiB of head-room the same run-away dies after ~0.1 s, always as
+/// `crash/signal_6` (allocation failure -> abort), which also keeps the enumeration and the replay of the
+/// recorded witnesses in every shard affordable.  It cannot hide anything: a single allocation above
+/// 64*(input+expected)+1 MiB (~1 MiB for these inputs) is a violation already, two orders of magnitude
+/// below the head-room.  Only called from `parse` functions, i.e. inside the engine's child.
 pub fn limit_address_space() {
     use std::sync::atomic::{AtomicBool, Ordering};
     static DONE: AtomicBool = AtomicBool::new(false);
     if DONE.swap(true, Ordering::Relaxed) {
         return;
     }
+    let vm_kib = std::fs::read_to_string("/proc/self/status")
+        .ok()
+        .and_then(|s| s.lines().find(|l| l.starts_with("VmSize:")).and_then(|l| l.split_whitespace().nth(1).and_then(|n| n.parse::<u64>().ok())));
+    let Some(vm_kib) = vm_kib else { return };
     unsafe {
         let mut lim = libc::rlimit { rlim_cur: 0, rlim_max: 0 };
         if libc::getrlimit(libc::RLIMIT_AS, &mut lim) == 0 {
-            let want = BOMB_AS_LIMIT_MIB << 20;
+            let want = vm_kib * 1024 + (BOMB_HEADROOM_MIB << 20);
             if lim.rlim_cur == libc::RLIM_INFINITY || lim.rlim_cur > want {
                 lim.rlim_cur = want;
                 libc::setrlimit(libc::RLIMIT_AS, &lim);
